@@ -8,25 +8,10 @@ import XknxVerif.Lemmas.BytesInv
 namespace XknxVerif.DPT
 open XknxVerif.SF
 
-/-- the documented exception of the text types: bytes that cannot be decoded (U+FFFD) come back as '?' -/
-def expected (r : Row) (v : Val) : Val :=
-  match r.family, v with
-  | .string, .atom (.str s) => .atom (.str (s.map fun c => if c == 0xFFFD then 0x3F else c))
-  | _, v => v
-
 /-- C08 for one payload: if it decodes, the value is accepted by the encoder and the new payload decodes
 to the same value (text: with '?' for undecodable bytes). -/
 def RT (ctx : Ctx) (r : Row) (p : Payload) : Prop :=
   ∀ v, decode ctx r p = .ok v → ∃ p', encodeVal ctx r v = .ok p' ∧ decode ctx r p' = .ok (expected r v)
-
-/-- executable form of `RT` -/
-def rtB (ctx : Ctx) (r : Row) (p : Payload) : Bool :=
-  match decode ctx r p with
-  | .ok v =>
-    (match encodeVal ctx r v with
-     | .ok p' => decode ctx r p' == .ok (expected r v)
-     | .error _ => false)
-  | .error _ => true
 
 theorem rtB_sound {ctx : Ctx} {r : Row} {p : Payload} (h : rtB ctx r p = true) : RT ctx r p := by
   intro v hv
@@ -44,16 +29,23 @@ theorem RT_of_error {ctx : Ctx} {r : Row} {p : Payload} {e : Err} (h : decode ct
 
 /-! ### classes whose decoder sees a single item (6 bit value or one octet): complete enumeration per row -/
 
-/-- all payloads the class can accept round-trip (256 octets, 64 six-bit values) -/
-def rt1 (ctx : Ctx) (r : Row) : Bool :=
-  rawLen r == 1
-    && ((List.range 256).all fun b => rtB ctx r (.array [b]))
-    && ((List.range 64).all fun v => rtB ctx r (.binary v))
-
-theorem rt1_sound {ctx : Ctx} {r : Row} (h : rt1 ctx r = true) (p : Payload) (hp : p.WF) : RT ctx r p := by
-  unfold rt1 at h
-  simp only [Bool.and_eq_true, beq_iff_eq, List.all_eq_true, List.mem_range] at h
-  obtain ⟨⟨hl, ha⟩, hb⟩ := h
+theorem rt1_sound {ctx : Ctx} {r : Row} (hl : rawLen r = 1)
+    (hA : ∀ k, k < 16 → rt1ChunkA ctx r k = true) (hB : ∀ k, k < 4 → rt1ChunkB ctx r k = true)
+    (p : Payload) (hp : p.WF) : RT ctx r p := by
+  have ha : ∀ b, b < 256 → rtB ctx r (.array [b]) = true := by
+    intro b hb
+    have := hA (b / 16) (by omega)
+    unfold rt1ChunkA at this
+    rw [List.all_eq_true] at this
+    have := this (b % 16) (List.mem_range.mpr (Nat.mod_lt _ (by decide)))
+    rwa [Nat.div_add_mod b 16] at this
+  have hb : ∀ v, v < 64 → rtB ctx r (.binary v) = true := by
+    intro v hv
+    have := hB (v / 16) (by omega)
+    unfold rt1ChunkB at this
+    rw [List.all_eq_true] at this
+    have := this (v % 16) (List.mem_range.mpr (Nat.mod_lt _ (by decide)))
+    rwa [Nat.div_add_mod v 16] at this
   cases p with
   | binary v => exact rtB_sound (hb v hp)
   | array bs =>
@@ -255,13 +247,6 @@ theorem u16_rt (ctx : Ctx) (r : Row) (hf : r.family = .u16) (hwf : wfU16 r = tru
 
 /-! ### DPT 8 (2-octet signed, resolution through binary64 arithmetic): needs the numeric sweep -/
 
-/-- the declared parameters every sweep ranges over -/
-def s16Params (r : Row) : PyNum × PyNum × PyNum := (r.vmin, r.vmax, r.res)
-
-/-- numeric core of the DPT 8 round trip: raw → value → raw -/
-def s16Core (P : PyNum × PyNum × PyNum) (i : Int) : Bool :=
-  s16Raw P.1 P.2.1 P.2.2 (s16Value P.2.2 i) == .ok i
-
 theorem numVal_encode (ctx : Ctx) (r : Row) (n : PyNum) : encodeVal ctx r (numVal n) = encodeNum r n := by
   cases n <;> rfl
 
@@ -293,5 +278,62 @@ theorem s16_rt (ctx : Ctx) (r : Row) (hf : r.family = .s16) (hk : r.kind = .arra
         unfold expected; simp [hf]
       rw [this]
       simp [decodeRaw, hf, decS16, hu]
+
+
+/-! ### DPT 9 (2-octet float): needs the numeric sweep; independent of the declared range -/
+
+theorem decF16_eq (r : Row) (a b : Nat) :
+    decF16 r [a, b] = if inRange r (.flt (f16Word (a * 256 + b))) then .ok (.atom (.flt (f16Word (a * 256 + b)))) else .error .conv := by
+  unfold decF16 f16Word
+  simp only []
+  try (generalize f16Parts (a * 256 + b) = pr; obtain ⟨m, e⟩ := pr; rfl)
+
+/-- the encoder on a value that passed the core check -/
+theorem f16Enc_of_core (ok : F → Bool) (v : F) (hok : ok v = true) (hc : f16CoreV v = true) :
+    ∃ x y, f16Enc ok v = .ok (.array [x, y]) ∧ f16Word (x * 256 + y) = v := by
+  unfold f16CoreV at hc
+  unfold f16Enc
+  cases hpre : f16Pre v with
+  | fail => rw [hpre] at hc; cases hc
+  | zero =>
+    rw [hpre] at hc
+    exact ⟨0, 0, rfl, by simpa using hc⟩
+  | cand k' e m0 mt =>
+    rw [hpre] at hc
+    simp only [Bool.and_eq_true, beq_iff_eq] at hc
+    obtain ⟨hm0, hfin⟩ := hc
+    simp only [hm0, hok, if_true]
+    generalize f16Finish m0 e k' = fin at hfin ⊢
+    match fin, hfin with
+    | [x, y], hfin =>
+      simp only [Bool.and_eq_true, decide_eq_true_eq, beq_iff_eq] at hfin
+      exact ⟨x, y, rfl, hfin.2⟩
+
+theorem f16_rt (ctx : Ctx) (r : Row) (hf : r.family = .f16) (hk : r.kind = .array) (hlen : r.length = 2)
+    (hcore : ∀ data : Nat, data < 65536 → f16Core data = true)
+    (p : Payload) (hp : p.WF) : RT ctx r p := by
+  intro v hv
+  obtain ⟨raw, rfl, hl, hd⟩ := decode_array_shape hk hv
+  obtain ⟨a, b, rfl⟩ := len2 (hl.trans hlen)
+  have ha : a < 256 := hp a (by simp)
+  have hb : b < 256 := hp b (by simp)
+  simp only [decodeRaw, hf, decF16_eq] at hd
+  have hc := hcore (a * 256 + b) (by omega)
+  unfold f16Core at hc
+  generalize f16Word (a * 256 + b) = w at hd hc
+  split at hd
+  · rename_i hin
+    injection hd with hd; subst hd
+    have hexp : expected r (.atom (.flt w)) = .atom (.flt w) := by
+      unfold expected; simp [hf]
+    rw [hexp]
+    have henc : encodeVal ctx r (.atom (.flt w)) = f16Enc (fun y => inRange r (.flt y)) w := by
+      simp [encodeVal, encodeNum, hf, encF16, pyFloat, PyNum.toF?, hin, bind, Except.bind]
+    obtain ⟨x, y, he, hw⟩ := f16Enc_of_core (fun y => inRange r (.flt y)) w hin hc
+    refine ⟨.array [x, y], by rw [henc, he], ?_⟩
+    rw [decode_array_of_raw hk (by simp [hlen])]
+    simp only [decodeRaw, hf, decF16_eq]
+    rw [hw, if_pos hin]
+  · cases hd
 
 end XknxVerif.DPT
